@@ -56,6 +56,7 @@ def run(rep: core.Report):
     _r18j(rep)
     _r18k(rep)
     _r18l(rep)
+    _r18m(rep)
     from rules import shared_selfalias
 
     shared_selfalias.run(rep, "R18i", ["phonopy/cui/create_force_sets.py", "phonopy/cui/phonopy_script.py", "phonopy/cui/load_helper.py", "phonopy/cui/collect_cell_info.py", "phonopy/file_IO.py", "phonopy/interface/vasp.py"])
@@ -271,6 +272,70 @@ def _r18g(rep):
 
 
 
+def _r18m(rep):
+    """A tag stored by the settings pass is stored whenever it is present, whatever else the same pass contains."""
+    rep.rule("R18m", "every value the configuration parser stores from the parameters of one pass (set_x(params['k'])) is stored whenever 'k' is among them, independently of the *other* keys of that pass: the configuration file and the command line are parsed in two passes into one settings object, so a tag and the tag it refines may arrive in different passes; three-valued evaluation of the guards on the way to each store with 'k' present, every other key absent and the settings state unknown", 40)
+    tree = core.parse(SETT)
+    sites = 0
+
+    def truth(e, k, pname):
+        """True / False / None (unknown) of a guard when only key k is among the parameters"""
+        if isinstance(e, ast.BoolOp):
+            vals = [truth(v, k, pname) for v in e.values]
+            if isinstance(e.op, ast.And):
+                return False if False in vals else (None if None in vals else True)
+            return True if True in vals else (None if None in vals else False)
+        if isinstance(e, ast.UnaryOp) and isinstance(e.op, ast.Not):
+            v = truth(e.operand, k, pname)
+            return None if v is None else (not v)
+        if isinstance(e, ast.Compare) and len(e.ops) == 1 and isinstance(e.ops[0], (ast.In, ast.NotIn)) and core.src(e.comparators[0]) == pname and isinstance(e.left, ast.Constant):
+            present = e.left.value == k
+            return present if isinstance(e.ops[0], ast.In) else (not present)
+        # a value read from another key of the pass: that key is absent, the test cannot hold (a KeyError at best)
+        others = [x for x in ast.walk(e) if isinstance(x, ast.Subscript) and core.src(x.value) == pname and isinstance(x.slice, ast.Constant) and x.slice.value != k]
+        if others:
+            return False
+        return None
+
+    for fn in [x for x in ast.walk(tree) if isinstance(x, ast.FunctionDef) and x.name == "_set_settings"]:
+        pname = next((st.targets[0].id for st in fn.body if isinstance(st, ast.Assign) and isinstance(st.targets[0], ast.Name) and core.src(st.value) in ("self._parameters", "self._confs")), None)
+        if pname is None:
+            pname = "params"
+
+        def walk(stmts, guards):
+            nonlocal sites
+            for st in stmts:
+                if isinstance(st, ast.If):
+                    walk(st.body, guards + [(st.test, True)])
+                    walk(st.orelse, guards + [(st.test, False)])
+                    continue
+                if isinstance(st, (ast.For, ast.While, ast.With, ast.Try)):
+                    walk(getattr(st, "body", []), guards)
+                    continue
+                for c in ast.walk(st):
+                    if not (isinstance(c, ast.Call) and isinstance(c.func, ast.Attribute) and c.func.attr.startswith("set_")):
+                        continue
+                    used = sorted({x.slice.value for a in c.args for x in ast.walk(a) if isinstance(x, ast.Subscript) and core.src(x.value) == pname and isinstance(x.slice, ast.Constant)})
+                    if len(used) != 1:
+                        continue
+                    k = used[0]
+                    sites += 1
+                    verdict = True
+                    blocker = None
+                    for test, want in guards:
+                        v = truth(test, k, pname)
+                        if v is not None and v != want:
+                            verdict, blocker = False, test
+                            break
+                    rep.instance("R18m", SETT, core.qualname_of(fn), f"{c.func.attr}(params['{k}'])", verdict,
+                                 "" if verdict else f"'{c.func.attr}(params[\'{k}\'])' is reached only when '{core.norm(core.src(blocker), 70)}' holds, i.e. only when another key arrives in the same pass as '{k}': with the refined tag in the configuration file and '{k}' on the command line (or the other way round) the value is silently dropped, although the same two settings given together are honoured",
+                                 line=c.lineno, nontrivial=bool(guards) and len(guards) > 1)
+
+        walk(fn.body, [])
+    if sites < 40:
+        raise AnalysisError(f"R18m: only {sites} stores of the form set_x(params['k']) found in the _set_settings methods")
+
+
 def _r18l(rep):
     """Dictionary-valued settings: the keys the script reads are keys the parser stores."""
     rep.rule("R18l", "dictionary-valued settings (MODULATION): every key the command-line front end reads from the settings dictionary -- subscript, 'in' test or .get() -- is a key the configuration parser stores under; a key that is never stored reads as 'not given' without any error (.get) and the value of the tag or option never reaches the library call", 3)
@@ -455,6 +520,8 @@ def selftest():
     V = []
     b = lambda name, file, old, new, rule, expect="", **kw: V.append(dict(name=name, kind="break", file=file, old=old, new=new, rule=rule, expect=expect, **kw))
     n = lambda name, file, old, new, **kw: V.append(dict(name=name, kind="neutral", file=file, old=old, new=new, **kw))
+    b("moment order stored only when the moment tag arrives in the same pass", SETT, '        if self._settings.is_moment:\n            if "moment_order" in params:\n                self._settings.set_moment_order(params["moment_order"])', '        if "moment" in params and params["moment"]:\n            if "moment_order" in params:\n                self._settings.set_moment_order(params["moment_order"])', "R18m", "moment_order")
+    n("moment order guard written as one condition", SETT, '        if self._settings.is_moment:\n            if "moment_order" in params:\n                self._settings.set_moment_order(params["moment_order"])', '        if self._settings.is_moment and "moment_order" in params:\n            self._settings.set_moment_order(params["moment_order"])')
     b("default displacement distance for the raw calculator option", SCRIPT, "get_default_displacement_distance(phonon.calculator)", "get_default_displacement_distance(settings.calculator)", "R18j", "main")
     b("tag values lower-cased with the tag names", SETT, "                    left, right = [x.strip() for x in line.split(\"=\")]\n                    self._confs[left.lower()] = right", "                    left, right = [x.strip().lower() for x in line.split(\"=\")]\n                    self._confs[left] = right", "R18k", "read_file")
     b("modulation order read under a key the parser does not store", SCRIPT, "        derivative_order = mod_setting[\"order\"]", "        derivative_order = mod_setting.get(\"derivative_order\")", "R18l", "derivative_order")
